@@ -719,6 +719,7 @@ def run_real(coro_fn: Callable[[str], Awaitable[Any]]) -> Any:
 
     d = tempfile.mkdtemp(prefix="c19-")
     try:
-        return asyncio.run(coro_fn(d))  # type: ignore[arg-type]
+        with contextlib.redirect_stderr(io.StringIO()):  # handle_client prints tracebacks
+            return asyncio.run(coro_fn(d))  # type: ignore[arg-type]
     finally:
         shutil.rmtree(d, ignore_errors=True)
